@@ -188,6 +188,10 @@ func mkWinRow(o wop, keyed bool) map[string]any {
 			}
 		case "91":
 			m["k"] = ""
+		case "95", "96", "97":
+			// texts that collide with the key encoder's own marks unless it escapes them: the NULL marker, the
+			// separator, an escaped separator (a single-column key must be escaped like any other)
+			m["k"] = winMarkKeys[o.key]
 		case "92", "93", "94":
 			// numeric keys that differ only beyond float32 precision (every JSON number is a float64)
 			m["k"] = winNumKeys[o.key]
@@ -233,6 +237,11 @@ func rowKey(r types.Row) string {
 			if s == "" {
 				return "91"
 			}
+			for tok, x := range winMarkKeys {
+				if x == s {
+					return tok
+				}
+			}
 			return s
 		}
 		if f, ok := v.(float64); ok {
@@ -246,6 +255,8 @@ func rowKey(r types.Row) string {
 	}
 	return "90"
 }
+
+var winMarkKeys = map[string]string{"95": `\N`, "96": `|`, "97": `\|`}
 
 var winNumKeys = map[string]float64{"92": 1700000001, "93": 1700000002, "94": 16777217.5}
 
